@@ -269,6 +269,9 @@ func (p *parser) parseObjectPropertyKey() (string, string) {
 		// null, false, class, etc.
 		if matchIdentifier.MatchString(literal) {
 			value = literal
+		} else {
+			// PropertyName : IdentifierName | StringLiteral | NumericLiteral (11.1.5)
+			p.error(idx, "Unexpected token %v", tkn)
 		}
 	}
 	return literal, value
